@@ -295,7 +295,8 @@ def run(ctx):
     r04a(ctx)
     r04b(ctx)
     r04c(ctx)
-    r04d(ctx)
+    from .c12 import r12e
+    r12e(ctx, 'R04e')       # unpruned continuous size = original size
     ctx.assume('nn.Module stores a missing bias as _parameters["bias"] = None')
 
 
